@@ -213,6 +213,7 @@ func runC01(c *report.Ctx) {
 	ruleSchema(c, []string{"nsUnspent", "nsCredits", "nsDebits", "nsMinedBalance", "nsTxRecords", "nsBlocks", "nsUnmined", "nsUnminedInputs", "nsUnminedCredits", "nsAddresses"}, 40, 20)
 	ruleByteOrder(c, []string{pkgTxmgr}, 4)
 	ruleLayout(c, []string{"unspent-key", "credit-key", "outpoint-key", "txrecord-key", "credit-value", "unspent-value", "txrecord-value", "block-value", "block-key", "debit-value", "synced-block-value", "synced-to-value", "address-value", "balance-value"}, 40)
+	ruleRelevantIndex(c, 4)
 }
 
 func phiHasAppend(ph *ssa.Phi, depth int) bool {
